@@ -56,7 +56,7 @@ var switchNames = []string{"podGrouper", "binder", "queueController", "podGroupC
 
 type cfgC struct {
 	Mask    uint `json:"enabled_mask"` // bit i = switchNames[i] enabled
-	Variant int  `json:"variant"`      // 0 defaults, 1 = global replicaCount 2 + binder image tag "v2"
+	Variant int  `json:"variant"`      // 0 defaults, 1 = global replicaCount 2 + binder image tag "v2", 2 = global nodeSelector + tolerations + security context (no pull secrets: the operator merges them into service accounts that other actors add secrets to, deliberately never removing any)
 }
 
 func (c cfgC) String() string {
@@ -92,6 +92,14 @@ func (c cfgC) config() *kaiv1.Config {
 	if c.Variant == 1 {
 		cfg.Spec.Global = &kaiv1.GlobalConfig{ReplicaCount: ptr.To(int32(2))}
 		cfg.Spec.Binder.Service.Image = &kaicommon.Image{Tag: ptr.To("v2")}
+	}
+	if c.Variant == 2 {
+		// scheduling constraints of the components themselves: set in one configuration, gone in the next
+		cfg.Spec.Global = &kaiv1.GlobalConfig{
+			NodeSelector:     map[string]string{"pool": "system"},
+			Tolerations:      []v1.Toleration{{Key: "dedicated", Operator: v1.TolerationOpExists, Effect: v1.TaintEffectNoSchedule}},
+			SecurityContext:  &v1.SecurityContext{RunAsNonRoot: ptr.To(true)},
+		}
 	}
 	cfg.Spec.SetDefaultsWhereNeeded() // ConfigReconciler.Reconcile does this before Deploy
 	return cfg
@@ -514,10 +522,11 @@ func casesC(tier string) []caseC {
 		c2 := cfgC{Mask: m}
 		out = append(out, caseC{C1: c2, C2: c2, Start: "tls", PromCRD: true})
 		out = append(out, caseC{C1: c2, C2: c2, Start: "tls+foreign", PromCRD: true})
-		for _, c1 := range []cfgC{{Mask: all}, {Mask: 0}, {Mask: m, Variant: 1}} {
+		for _, c1 := range []cfgC{{Mask: all}, {Mask: 0}, {Mask: m, Variant: 1}, {Mask: m, Variant: 2}} {
 			out = append(out, caseC{C1: c1, C2: c2, Start: "tls+deployed-c1", PromCRD: true})
 		}
 		out = append(out, caseC{C1: cfgC{Mask: all}, C2: cfgC{Mask: m, Variant: 1}, Start: "tls+foreign+deployed-c1", PromCRD: true})
+		out = append(out, caseC{C1: cfgC{Mask: m}, C2: cfgC{Mask: m, Variant: 2}, Start: "tls+deployed-c1", PromCRD: true})
 		if n := popcount(m); tier != "quick" || n <= 2 || n >= 6 {
 			for i := range switchNames {
 				out = append(out, caseC{C1: cfgC{Mask: m ^ (1 << uint(i))}, C2: c2, Start: "tls+deployed-c1", PromCRD: true})
